@@ -340,10 +340,17 @@ type Setup struct {
 	N    int    `json:"n,omitempty"`
 }
 type Step struct {
-	Op     string  `json:"op"` // expect | call | cleanup
+	Op     string  `json:"op"` // expect | call | cleanup | setbuf | mutate
 	M      string  `json:"m,omitempty"`
 	Args   []Val   `json:"args,omitempty"`
 	Setups []Setup `json:"setups,omitempty"`
+	// caller-owned []interface{} buffers: setbuf (re)writes buffer B with Args (in place when the
+	// length is unchanged), mutate sets element I to V, expect with Buf spreads the buffer itself
+	// as the variadic expectation arguments (Args then holds the fixed arguments only)
+	B   int  `json:"b,omitempty"`
+	I   int  `json:"i,omitempty"`
+	V   *Val `json:"v,omitempty"`
+	Buf *int `json:"buf,omitempty"`
 }
 type History struct {
 	Mock  string `json:"mock"`
@@ -431,6 +438,16 @@ type runner struct {
 	mockV  reflect.Value
 	events []event
 	t      *fakeT
+	bufs   map[int][]interface{}
+}
+
+// tailType: the static type a variadic-position expectation argument is built for
+func tailType(mt reflect.Type, a Val) reflect.Type {
+	last := mt.In(mt.NumIn() - 1)
+	if a.Sl != nil {
+		return last
+	}
+	return last.Elem()
 }
 
 // mkFunc builds a callback / provider of func type ft that records its arguments and
@@ -482,6 +499,21 @@ func (r *runner) step(s Step) (o Obs) {
 			f()
 		}
 		return Obs{Out: "done"}
+	case "setbuf":
+		mt := r.mockV.MethodByName(s.M).Type()
+		old, ok := r.bufs[s.B]
+		if !ok || len(old) != len(s.Args) {
+			old = make([]interface{}, len(s.Args))
+			r.bufs[s.B] = old
+		}
+		for i, a := range s.Args {
+			old[i] = boxed(tailType(mt, a), a).Interface()
+		}
+		return Obs{Out: "done"}
+	case "mutate":
+		mt := r.mockV.MethodByName(s.M).Type()
+		r.bufs[s.B][s.I] = boxed(tailType(mt, *s.V), *s.V).Interface()
+		return Obs{Out: "done"}
 	case "call":
 		m := r.mockV.MethodByName(s.M)
 		mt := m.Type()
@@ -531,7 +563,16 @@ func (r *runner) step(s Step) (o Obs) {
 			}
 			args = append(args, boxed(t, a))
 		}
-		call := em.Call(args)[0] // *MockX_M_Call
+		var call reflect.Value // *MockX_M_Call
+		if s.Buf != nil {
+			buf, ok := r.bufs[*s.Buf]
+			if !ok {
+				panic("driver: unknown buffer")
+			}
+			call = em.CallSlice(append(args, reflect.ValueOf(buf)))[0] // EXPECT().M(fixed..., buf...)
+		} else {
+			call = em.Call(args)[0]
+		}
 		raw := call.Elem().FieldByName("Call")
 		for _, su := range s.Setups {
 			switch su.S {
@@ -594,7 +635,7 @@ func runHistory(h History) (obs []Obs, err string) {
 	if !ok {
 		return nil, "driver: unknown mock " + h.Mock
 	}
-	r := &runner{}
+	r := &runner{bufs: map[int][]interface{}{}}
 	r.t = &fakeT{events: &r.events}
 	cv := reflect.ValueOf(ctor)
 	if h.Ctor {
